@@ -308,9 +308,9 @@ type addrClass struct {
 	shared   bool   // rooted in captured state or a pointer-like parameter
 	root     string // description of the root
 	rootVal  ssa.Value
-	firstIdx ssa.Value    // first index applied to the shared container (program order from the root)
+	firstIdx ssa.Value      // first index applied to the shared container (program order from the root)
 	slot     *ssa.IndexAddr // the IndexAddr of that first index
-	derefAft bool         // a reference stored in that element is followed afterwards (writes the pointee)
+	derefAft bool           // a reference stored in that element is followed afterwards (writes the pointee)
 }
 
 // classifyAddr walks a written address back to its root and records, in program order from the
@@ -489,8 +489,8 @@ func dupFreeValue(v ssa.Value, seen map[ssa.Value]bool, nApp *int) (bool, string
 			return false, "assigned from a call"
 		}
 		*nApp++
-		if !appendsMapKey(x) {
-			return false, "appends something other than the key of a map iteration"
+		if !appendsMapKey(x) && !appendsFirstSeen(x) {
+			return false, "appends something other than the key of a map iteration (or an element on its first sighting in a set)"
 		}
 		return dupFreeValue(x.Call.Args[0], seen, nApp)
 	case *ssa.Phi:
@@ -508,6 +508,131 @@ func dupFreeValue(v ssa.Value, seen map[ssa.Value]bool, nApp *int) (bool, string
 		}
 	}
 	return false, "assigned from " + v.String()
+}
+
+// appendsFirstSeen: `if _, seen := m[e]; !seen { m[e] = …; s = append(s, e) }` — the append is reachable only through
+// the miss edge of a comma-ok lookup of the appended value in a map, the value is inserted into that map before the
+// next lookup can happen, and nothing is ever deleted from the map: the appended values are pairwise distinct.
+func appendsFirstSeen(app *ssa.Call) bool {
+	e := appendedElem(app)
+	if e == nil {
+		return false
+	}
+	fn := app.Parent()
+	var lk *ssa.Lookup
+	core.AllInstrs(fn, func(i ssa.Instruction) {
+		if l, ok := i.(*ssa.Lookup); ok && l.CommaOk && l.Index == e {
+			if _, isMap := l.X.Type().Underlying().(*types.Map); isMap {
+				lk = l
+			}
+		}
+	})
+	if lk == nil {
+		return false
+	}
+	var found ssa.Value
+	for _, r := range core.Refs(lk) {
+		if ex, ok := r.(*ssa.Extract); ok && ex.Index == 1 {
+			found = ex
+		}
+	}
+	if found == nil {
+		return false
+	}
+	miss := boolEdges(fn, found, false)
+	if miss.Empty() || !core.MustPass(fn, miss, app) {
+		return false
+	}
+	// inserted on the way, never deleted
+	var ins *ssa.MapUpdate
+	deleted := false
+	core.AllInstrs(fn, func(i ssa.Instruction) {
+		switch x := i.(type) {
+		case *ssa.MapUpdate:
+			if x.Map == lk.X && x.Key == e {
+				ins = x
+			}
+		case *ssa.Call:
+			if b, ok := x.Call.Value.(*ssa.Builtin); ok && (b.Name() == "delete" || b.Name() == "clear") && len(x.Call.Args) > 0 && x.Call.Args[0] == lk.X {
+				deleted = true
+			}
+		}
+	})
+	if ins == nil || deleted {
+		return false
+	}
+	if core.Precedes(fn, ins, app) && core.MustPass(fn, miss, ins) {
+		return true
+	}
+	// inserted after the append, before the lookup can run again
+	cut := core.NewCuts()
+	cut.AddInstr(ins)
+	return !core.ReachableAvoiding(fn, app, cut, lk)
+}
+
+// overwritesPooled: instruction u, the first to touch a pooled object (aliases in vals), replaces its whole value.
+func overwritesPooled(c *Ctx, u ssa.Instruction, vals map[ssa.Value]bool, depth int) bool {
+	switch x := u.(type) {
+	case *ssa.Store:
+		return vals[x.Addr] && !vals[x.Val]
+	case *ssa.Call:
+		pos := -1
+		n := 0
+		for i, a := range x.Call.Args {
+			if vals[a] {
+				pos = i
+				n++
+			}
+		}
+		if n != 1 {
+			return false
+		}
+		f := core.Callee(x.Common())
+		if f == nil {
+			return false
+		}
+		if strings.HasPrefix(f.String(), "(*math/big.Int).") {
+			return pos == 0 && !bigObservers[f.Name()]
+		}
+		if core.InModule(f) && len(f.Blocks) > 0 && depth < 3 && pos < len(f.Params) {
+			return paramOverwrittenFirst(c, f, f.Params[pos], depth+1)
+		}
+		if ow, known := externalMW(f, pos); known {
+			return ow
+		}
+	}
+	return false
+}
+
+// paramOverwrittenFirst: in f, every first use of parameter p (on any path from entry) overwrites it completely.
+func paramOverwrittenFirst(c *Ctx, f *ssa.Function, p *ssa.Parameter, depth int) bool {
+	vals := map[ssa.Value]bool{p: true}
+	var uses []ssa.Instruction
+	for _, r := range core.Refs(p) {
+		if _, isDbg := r.(*ssa.DebugRef); isDbg {
+			continue
+		}
+		uses = append(uses, r)
+	}
+	if len(uses) == 0 || len(f.Blocks) == 0 || len(f.Blocks[0].Instrs) == 0 {
+		return false
+	}
+	entry := f.Blocks[0].Instrs[0]
+	for _, u := range uses {
+		cut := core.NewCuts()
+		for _, w := range uses {
+			if w != u {
+				cut.AddInstr(w)
+			}
+		}
+		if u != entry && !core.ReachableAvoiding(f, entry, cut, u) {
+			continue
+		}
+		if !overwritesPooled(c, u, vals, depth) {
+			return false
+		}
+	}
+	return true
 }
 
 func appendsMapKey(app *ssa.Call) bool {
@@ -754,7 +879,7 @@ func RuleG5(c *Ctx) {
 // G6 pool discipline
 
 func RuleG6(c *Ctx) {
-	c.Rule("G6", "pool discipline: a value obtained from bigIntPool.Get() is never used after Put on any path, never returned, stored outside the frame, sent or captured, and is put back at most once on every path (explicit and deferred Puts together)")
+	c.Rule("G6", "pool discipline: a value obtained from bigIntPool.Get() is never used after Put on any path, never returned, stored outside the frame, sent or captured, and is put back at most once on every path (explicit and deferred Puts together); the first thing done to it on every path from Get overwrites it completely (a big.Int setter with the object as receiver only, a whole-value store, or a module function whose first use of that parameter does), so no state travels from one user of the pool to the next")
 	n := 0
 	for _, top := range c.P.TopFuncs() {
 		for _, fn := range core.Family(top) {
@@ -775,12 +900,15 @@ func RuleG6(c *Ctx) {
 					for v := range vals {
 						for _, r := range core.Refs(v) {
 							switch x := r.(type) {
-							case *ssa.TypeAssert, *ssa.ChangeInterface, *ssa.MakeInterface, *ssa.Phi, *ssa.FieldAddr, *ssa.IndexAddr:
-								// pointers into the pooled object are the pooled object
+							case *ssa.TypeAssert, *ssa.ChangeInterface, *ssa.MakeInterface, *ssa.Phi, *ssa.FieldAddr, *ssa.IndexAddr, *ssa.Slice:
+								// pointers into the pooled object (and slices of a pooled array) are the pooled object
 								if fa, isFA := x.(*ssa.FieldAddr); isFA && fa.X != v {
 									continue
 								}
 								if ia, isIA := x.(*ssa.IndexAddr); isIA && ia.X != v {
+									continue
+								}
+								if sl, isSl := x.(*ssa.Slice); isSl && sl.X != v {
 									continue
 								}
 								if !vals[x.(ssa.Value)] {
@@ -850,6 +978,32 @@ func RuleG6(c *Ctx) {
 								deferred = append(deferred, x)
 								continue
 							}
+							// defer func(v T) { pool.Put(v) }(obj): the same thing through a literal
+							if lit, _ := closureOf(x.Call.Value); lit != nil || func() bool { f, ok := x.Call.Value.(*ssa.Function); lit = f; return ok }() {
+								onlyPut := lit != nil && len(lit.Blocks) > 0
+								for pi, a := range x.Call.Args {
+									if !vals[a] || lit == nil || pi >= len(lit.Params) {
+										continue
+									}
+									for _, r := range core.Refs(lit.Params[pi]) {
+										switch y := r.(type) {
+										case *ssa.MakeInterface:
+											for _, rr := range core.Refs(y) {
+												if pc, isCall := rr.(*ssa.Call); !isCall || !core.IsMethod(core.Callee(pc.Common()), "sync", "Pool", "Put") {
+													onlyPut = false
+												}
+											}
+										case *ssa.DebugRef:
+										default:
+											onlyPut = false
+										}
+									}
+								}
+								if onlyPut {
+									deferred = append(deferred, x)
+									continue
+								}
+							}
 							uses = append(uses, x)
 						case *ssa.Call:
 							if core.IsMethod(core.Callee(x.Common()), "sync", "Pool", "Put") {
@@ -897,7 +1051,27 @@ func RuleG6(c *Ctx) {
 						}
 					}
 				}
-				c.Check(ok2, "G6", key, call.Pos(), "pooled big.Int escapes, is used after being returned to the pool, or is returned to it twice: "+why, fmt.Sprintf("%d uses, %d Put(s), none after Put; no escape", len(uses), len(puts)))
+				// hygiene: whatever touches the object first on a path from Get overwrites it completely, so nothing a
+				// previous user left in it can reach this user's result
+				for _, u := range uses {
+					cut := core.NewCuts()
+					for _, w := range uses {
+						if _, isDefer := w.(*ssa.Defer); w != u && !isDefer {
+							cut.AddInstr(w)
+						}
+					}
+					if !core.ReachableAvoiding(fn, call, cut, u) {
+						continue // some other use comes first on every path
+					}
+					if _, isDefer := u.(*ssa.Defer); isDefer {
+						continue // registering a deferred call touches nothing yet (what it does at exit is a use like any other)
+					}
+					if !overwritesPooled(c, u, vals, 0) {
+						ok2 = false
+						why += fmt.Sprintf(" first touched at %s by something that does not overwrite it completely: what a previous user of the pool left in it can be read;", c.P.Pos(u.Pos()))
+					}
+				}
+				c.Check(ok2, "G6", key, call.Pos(), "a pooled object escapes, is used after being returned to the pool, or is returned to it twice: "+why, fmt.Sprintf("%d uses, %d Put(s), none after Put; no escape", len(uses), len(puts)))
 			}
 		}
 	}
